@@ -571,6 +571,57 @@ C01_Ex(pr) == \A g \in Groups : Created(g) => \A c \in Remaining(g) :
 C01_Excused == C01_Ex(TRUE)
 C01_ExcusedQuiet == C01_Ex(FALSE)
 
+\* --- C02: application messages of the winning branch stored exactly once, intact, valid ---
+OnWinner(g, ch) == IsPrefixEq(ch, Winner(g))
+AppEvents(g) == {e \in DOMAIN ev : ev[e].g = g /\ ev[e].kind = "app" /\ e \notin withdrawn}
+
+Excused_AppFiledUnderReceiverEpoch(c, e) ==
+    LET k == <<ev[e].g, ev[e].msg.id>> IN
+    /\ "AppFiledUnderReceiverEpoch" \in Dev
+    /\ k \in DOMAIN msgs[c]
+    /\ msgs[c][k].state = "epoch_invalidated"
+    /\ msgs[c][k].epoch > EpochOf(ev[e].g, ev[e].parent)
+
+C02_Ex(pr) ==
+    \A g \in Groups : Created(g) => \A e \in AppEvents(g), c \in Clients :
+       LET k == <<g, ev[e].msg.id>> IN
+       /\ (/\ OnWinner(g, ev[e].parent)
+           /\ c \in GS(g, ev[e].parent).members
+           /\ ConvergedAt(c, g)
+           /\ <<c, e>> \in hist.tried /\ <<c, e>> \notin hist.late)
+          => \/ /\ k \in DOMAIN msgs[c]
+                /\ msgs[c][k].state = "processed"
+                /\ msgs[c][k].author = ev[e].author
+                /\ msgs[c][k].content = ev[e].msg.content
+                /\ msgs[c][k].w = e
+             \/ /\ Excused_AppFiledUnderReceiverEpoch(c, e)
+                /\ pr => PrintT(<<"KNOWN-FINDING", "C02", "AppFiledUnderReceiverEpoch", c, e>>)
+       /\ (~OnWinner(g, ev[e].parent) /\ ConvergedAt(c, g) /\ k \in DOMAIN msgs[c])
+          => msgs[c][k].state \notin {"processed", "created"}
+C02_Excused == C02_Ex(TRUE)
+C02_ExcusedQuiet == C02_Ex(FALSE)
+
+\* stepwise: a stored message's payload never changes (action property)
+C02_ContentImmutable ==
+    \A c \in Clients : \A k \in DOMAIN msgs[c] :
+        k \in DOMAIN msgs'[c] /\ msgs'[c][k].author = msgs[c][k].author /\ msgs'[c][k].content = msgs[c][k].content
+
+\* --- C07: re-delivering an event that has already taken effect changes nothing observable ---
+ObsOf(c) == [g |-> [g \in Groups |-> [chain |-> cl[c][g].chain, pend |-> cl[c][g].pend, props |-> cl[c][g].props,
+                                       rec |-> cl[c][g].rec, mls |-> cl[c][g].mls]],
+             msgs |-> [k \in DOMAIN msgs[c] |-> [state |-> msgs[c][k].state, author |-> msgs[c][k].author, content |-> msgs[c][k].content]]]
+
+Handled(c, e) ==
+    LET g == ev[e].g
+        r == IF e \in DOMAIN proc[c] THEN proc[c][e] ELSE NoProc IN
+    \/ \E i \in DOMAIN cl[c][g].chain : cl[c][g].chain[i] = e           \* applied commit
+    \/ r.state = "epoch_invalidated"                                     \* superseded commit / message
+    \/ e \in cl[c][g].props                                              \* queued proposal
+    \/ /\ ev[e].kind = "app"
+       /\ <<g, ev[e].msg.id>> \in DOMAIN msgs[c]
+       /\ msgs[c][<<g, ev[e].msg.id>>].state = "processed"
+       /\ msgs[c][<<g, ev[e].msg.id>>].w = e                             \* stored / echoed message
+
 \* --- C08: the stored record mirrors the MLS state (checked after every call) ---
 C08_Mirror == \A c \in Clients, g \in Groups :
                  (cl[c][g].mls = "ok" /\ cl[c][g].rec.st = "active") =>
